@@ -197,9 +197,25 @@ def check(ctx, cv, sel, case, tag):
         want = np.array([sub_vals[sv[c]] if sel[c] else np.nan for c in range(K)])
         if not same(call('project_subset_to_cycles', sub_vals, sv), want):
             V('project_subset_to_cycles', 'per-subset values not placed on exactly the selected cycles', case); return
+        want_c_sub = want
         want_s = np.array([sub_vals[sv[l]] if (l >= 0 and sel[l]) else np.nan for l in cv])
         if not same(call('project_subset_to_samples', sub_vals, sv, cv), want_s):
             V('project_subset_to_samples', 'per-subset values not placed on exactly the samples of selected cycles', case); return
+        if ctx.evaluations % 3 == 0 and len(sub_vals):
+            # an infinite per-item value (a ratio with a zero denominator) is a value like any other: only NaN marks "no value"
+            j = int(ctx.rng.integers(len(sub_vals)))
+            big = float(gens.pick(ctx.rng, [np.inf, -np.inf]))
+            sv_inf = np.array(sub_vals, dtype=float)
+            sv_inf[j] = big
+            ws = np.array(want_s, dtype=float)
+            ws[np.asarray(want_s) == sub_vals[j]] = big
+            ctx.count('projections_of_infinite_values')
+            if not same(call('project_subset_to_samples', sv_inf, sv, cv), ws):
+                V('project_subset_to_samples:infinite-value', 'an infinite per-subset value is not placed on the samples of its cycle', case); return
+            wc = np.array(want_c_sub, dtype=float)
+            wc[np.asarray(want_c_sub) == sub_vals[j]] = big
+            if not same(call('project_subset_to_cycles', sv_inf, sv), wc):
+                V('project_subset_to_cycles:infinite-value', 'an infinite per-subset value is not placed on its cycle', case); return
         want = np.array([ch_vals[chv[s]] for s in range(nsub)])
         if not same(call('project_chain_to_subset', ch_vals, chv), want):
             V('project_chain_to_subset', 'per-chain values not placed on exactly the subset cycles of each chain', case); return
